@@ -304,6 +304,26 @@ def standard_trusted_base():
     ]
 
 
+def pi2_import_closure(module):
+    """the module and every Pi2.* module it imports, transitively (from the `import` lines of the sources)"""
+    seen, todo = [], [module]
+    while todo:
+        m = todo.pop()
+        if m in seen:
+            continue
+        seen.append(m)
+        path = os.path.join(LEAN, *m.split('.')) + '.lean'
+        if not os.path.exists(path):
+            continue
+        for line in open(path):
+            mm = re.match(r'\s*import\s+(Pi2[\w.]*)', line)
+            if mm:
+                todo.append(mm.group(1))
+            elif line.strip() and not line.startswith(('import', '--', '/-')) and not line.startswith(' '):
+                break
+    return sorted(seen)
+
+
 def proof_gate(rep, module, theorems, extra_targets=('pi2drv',)):
     """build the property module + driver, audit axioms.  Returns (ok, detail dict).
     ok=False means a proof obligation is broken (the caller must search for a failing input)."""
@@ -323,6 +343,14 @@ def proof_gate(rep, module, theorems, extra_targets=('pi2drv',)):
     if hits:
         detail['forbidden_tokens'] = hits
     good = not bad and not hits
+    if rep.tier == 'thorough' and good:
+        # independent re-check of the compiled declarations of the property module and of every Pi2 module it imports
+        mods = pi2_import_closure(module)
+        rc, out = sh(['lake', 'env', 'leanchecker'] + mods, cwd=LEAN, timeout=3600)
+        rep.coverage['leanchecker'] = {'modules': len(mods), 'exit': rc}
+        if rc != 0:
+            detail['leanchecker_failed'] = out[-1500:]
+            good = False
     rep.coverage.update({
         'obligations': len(theorems),
         'discharged': len(theorems) - len(bad) if not hits else 0,
